@@ -110,24 +110,39 @@ func cmdCheck(args []string) int {
 		}
 	}
 	run.obls = append(run.obls, v.lemmaObligations(*prop)...)
-	if g := v.contracts["call.exec.contextFn"]; g != nil && hasProp(g, *prop) {
+	if g := v.contracts["call.exec.contextFn"]; g != nil {
 		dob, derrs := v.dispatchObligations()
-		run.obls = append(run.obls, dob...)
-		for _, e := range derrs {
-			translationErrors = append(translationErrors, "exec.execContext: "+e)
+		n := 0
+		for _, o := range dob {
+			for _, q := range o.Props {
+				if q == *prop {
+					run.obls = append(run.obls, o)
+					n++
+					break
+				}
+			}
+		}
+		if *prop == "C08" {
+			for _, e := range derrs {
+				translationErrors = append(translationErrors, "exec.execContext: "+e)
+			}
 		}
 	}
 	// solve
 	var wg sync.WaitGroup
 	var mu sync.Mutex
 	gate := make(chan struct{}, 12)
-	for _, o := range run.obls {
+	// query texts are produced sequentially (translation state is not goroutine-safe); solving is parallel
+	queries := make([]string, len(run.obls))
+	for i, o := range run.obls {
+		queries[i] = o.tr.queryText(o, true)
+	}
+	for i, o := range run.obls {
 		wg.Add(1)
-		go func(o *Obligation) {
+		go func(o *Obligation, q string) {
 			defer wg.Done()
 			gate <- struct{}{}
 			defer func() { <-gate }()
-			q := o.tr.queryText(o, true)
 			to := run.timeout
 			var which []string
 			if o.Cover {
@@ -145,7 +160,7 @@ func cmdCheck(args []string) int {
 			}
 			run.solverS += res.TimeS
 			mu.Unlock()
-		}(o)
+		}(o, queries[i])
 	}
 	wg.Wait()
 
